@@ -25,17 +25,23 @@ Bad(e) ==
     \cup (IF Range(e.items) \subseteq Present(e.tree) THEN {} ELSE {"complete"})
     \cup (IF Len(e.items) = Cardinality(Range(e.items)) THEN {} ELSE {"nodup"})
     \cup (IF \A i, j \in DOMAIN e.items : i < j => ~StrictPrefix(e.items[j], e.items[i]) THEN {} ELSE {"parentsfirst"})
+\* what was judged (vacuity guard): TLC registers, single worker; totals are printed with DONE
+CN == [walks |-> 601, with_pending |-> 602, fault_runs |-> 603, nonempty_trees |-> 604]
+Bump(i) == TLCSet(i, TLCGet(i) + 1)
+BumpIf(c, i) == IF c THEN Bump(i) ELSE TRUE
+Counters == [x \in DOMAIN CN |-> TLCGet(CN[x])]
 Next ==
   /\ l <= Len(Rec)
   /\ LET e == Rec[l]  bad == Bad(e) IN
-     IF bad = {} THEN TRUE
-     ELSE Report("VIOL", [l |-> l, seg |-> l, secondary |-> FALSE, conjs |-> bad,
+     /\ Bump(CN.walks) /\ BumpIf(\E i \in DOMAIN e.plan : e.plan[i] > 0, CN.with_pending) /\ BumpIf(e.fault # 0, CN.fault_runs) /\ BumpIf(Present(e.tree) # {}, CN.nonempty_trees)
+     /\ (IF bad = {} THEN TRUE
+          ELSE Report("VIOL", [l |-> l, seg |-> l, secondary |-> FALSE, conjs |-> bad,
                           sig |-> [conj |-> CHOOSE c \in bad : TRUE, op |-> "walk_dir", kind |-> "awalk", cfg |-> e.cfg,
-                                   pendings |-> Len(SelectSeq(e.plan, LAMBDA x : x > 0)), entries |-> Cardinality(Present(e.tree))]])
+                                   pendings |-> Len(SelectSeq(e.plan, LAMBDA x : x > 0)), entries |-> Cardinality(Present(e.tree))]]))
   /\ l' = l + 1
-Init == l = 1
+Init == l = 1 /\ \A x \in DOMAIN CN : TLCSet(CN[x], 0)
 TrSpec == Init /\ [][Next]_l
 Consumed ==
-  IF TLCGet("stats").diameter - 1 = Len(Rec) THEN Report("DONE", [events |-> Len(Rec)])
+  IF TLCGet("stats").diameter - 1 = Len(Rec) THEN Report("DONE", [events |-> Len(Rec), judged |-> Counters])
   ELSE Report("STUCK", [at |-> TLCGet("stats").diameter, of |-> Len(Rec)]) /\ FALSE
 =============================================================================
